@@ -662,7 +662,9 @@ func c13RunCLI(run *ev.Run, cc codecCounts, bin, base, id string, files []c13Fil
 	}
 	paths := make([]string, len(files))
 	for f := range files {
-		paths[f] = filepath.Join(dir, fmt.Sprintf("f%d.%s", f, files[f].codec))
+		// the encoding is detected from the content: the name may carry no or a misleading extension
+		ext := []string{files[f].codec, "bin", []string{"gob", "json", "csv"}[(f+len(files))%3], "results"}[(f*7+len(files))%4]
+		paths[f] = filepath.Join(dir, fmt.Sprintf("f%d.%s", f, ext))
 		if err := codecWriteFile(paths[f], files[f].codec, files[f].recs); err != nil {
 			run.Inconclusive("C13 could not write an input file: " + err.Error())
 			return
